@@ -20,6 +20,7 @@ EXPLANATION = (
     "document, project document or the cache file."
     ' The rename that publishes the cache is never executed inside a `with` that still holds a file object writing the temporary (rename after close).'
     ' (g) a rename onto the cache / document file installs only a temporary that the same function has written (C10-g).'
+    ' (h) migration steps place files by rename only, never by copying (C10-h).'
 )
 UNDECIDED = "Torn-prefix behaviour of the file system, durability without fsync and reader scheduling are not decided (no execution)."
 ASSUMPTIONS = ["os.replace is atomic on the platform; the synced_collections source found on sys.path is the one imported at run time."]
